@@ -93,6 +93,8 @@ def base_env(extra=None, backtrace="0"):
            "RUST_BACKTRACE": backtrace, "NO_COLOR": "1", "LANG": "C.UTF-8"}
     if extra:
         env.update(extra)
+    if "MSCRIPT_VERIF_COV_PROFILE" in os.environ:        # tools/coverage.sh: source-coverage survey of the alphabets (never set by a registered check)
+        env["LLVM_PROFILE_FILE"] = os.environ["MSCRIPT_VERIF_COV_PROFILE"]
     return env
 
 
